@@ -291,7 +291,10 @@ class MementoCodec:
         elif isinstance(obj, str):
             return {"type": ResultType.string.name, "value": obj}
         elif isinstance(obj, bytes):
-            return {"type": ResultType.binary.name, "value": base64.b64encode(obj)}
+            return {
+                "type": ResultType.binary.name,
+                "value": base64.b64encode(obj).decode("ascii"),
+            }
         elif isinstance(obj, int) or isinstance(obj, float):
             return {"type": ResultType.number.name, "value": obj}
         elif isinstance(obj, np.ndarray):
